@@ -565,7 +565,7 @@ func Run(r *mc.Run) {
 		}
 	}
 	archs := []string{"amd64", "i386", "armhf"}
-	r.Scenario("possibility-selection", map[string]interface{}{"alternative_shapes": shapeText, "max_alternatives": 3, "max_relations": 2, "architectures": archs}, len(rels), func(i int, st *mc.Stats) bool {
+	r.Scenario("possibility-selection", map[string]interface{}{"alternative_shapes": shapeText, "max_alternatives": 3, "max_relations": 2, "max_alternatives_in_two_relations": r.Pick(5, 6), "architectures": archs}, len(rels), func(i int, st *mc.Stats) bool {
 		try := func(in PossIn) {
 			st.Evals++
 			st.Traces++
@@ -586,6 +586,9 @@ func Run(r *mc.Run) {
 				for j := range rels {
 					if nm != 0 && len(rels[i])+len(rels[j]) > 4 {
 						continue // shared names: up to four alternatives in all (2+2, 3+1, 1+3)
+					}
+					if r.Quick() && len(rels[i])+len(rels[j]) > 5 {
+						continue // quick: two relations with up to five alternatives in all; thorough: 3+3 as well
 					}
 					try(PossIn{[][]int{rels[i], rels[j]}, a, nm})
 				}
